@@ -70,7 +70,21 @@ def golden(b, tables_root=None):
         enc = _h(Encoder(tables_root_dir=tables_root).process(fj).serialized_bytes)
     except Exception as e:
         enc = 'raises ' + type(e).__name__
-    return dict(digest=d, flat_json=fj, encode=enc)
+    # what a brand-new decoder says about a copy whose stop signature is damaged
+    bad = damaged_copy(b)
+    try:
+        Decoder(tables_root_dir=tables_root).process(bad)
+        dmg = 'decodes'
+    except Exception as e:
+        dmg = 'raises'
+    return dict(digest=d, flat_json=fj, encode=enc, damaged=dmg)
+
+
+def damaged_copy(b):
+    i = b.rfind(b'7777')
+    if i < 0:
+        return b[:-1] + b'8'
+    return b[:i] + b'7767' + b[i + 4:]
 
 
 def main(argv):
